@@ -3,7 +3,8 @@
     Gen/GridRes.v   (tools/gen/gridres.py)    set_/with_resolution, SumDiffFrequencySpace::new, Steps2D::new/ranges -> Proofs/Compose_gridres.v
     Gen/PMSimple.v  (tools/gen/pmsimple.py)   math::{tan,csc,cot,sinc}, gaussian_pm, phasematch_sinc/gaussian,
                                               integration_steps_best_guess                         -> Proofs/Compose_pmsimple.v
-`run_stage(ctx)` can be called from any property's pipeline (harness sub-command `pms`); `./check wrappers` runs it alone.
+`run_stage(ctx, binp, part)` is called from a property's pipeline (part "delta_k": props/c03.py, harness sub-command `pms`; part
+"efficiencies": props/c08.py, harness sub-command `effchain`); `./check wrappers` runs everything alone (part "all").
 
 S3  the four lemma files build against the freshly generated definitions (a forwarder whose callee, argument order or field updates
     changed no longer matches its pin), no forbidden vernacular, only the allowed axioms.
@@ -20,9 +21,14 @@ import math
 
 from vlib.common import *
 
+STAGE = "wrappers"
 FILES = ["Proofs/Compose_wrappers.vo", "Proofs/Compose_wrappers_eff.vo", "Proofs/Compose_gridres.vo", "Proofs/Compose_pmsimple.vo",
          "Proofs/Compose_pmsimple_cases.vo"]
 GENERATORS = ["wrappers", "gridres", "pmsimple"]
+# what a property's pipeline asks for: part -> (lemma files built here, generators whose refusals are this part's broken obligations, harness op)
+PARTS = {"delta_k": (["Proofs/Compose_wrappers.vo", "Proofs/Compose_pmsimple_cases.vo"], ["wrappers", "pmsimple"], "pms"),
+         "efficiencies": (["Proofs/Compose_wrappers_eff.vo"], ["wrappers"], "effchain"),
+         "all": (FILES, GENERATORS, "both")}
 IMPORTS = "From Coq Require Import ZArith.\nFrom SpdVerif Require Import Base.Rx Base.Vec3 Gen.PMSimple Proofs.Compose_pmsimple Proofs.Compose_pmsimple_cases.\n"
 TOL_PM, TOL_FN, TOL_TRIG = "1e-12", "1e-14", "1e-13"
 
@@ -46,63 +52,136 @@ def goals_of(o, k):
     return out
 
 
-def run_stage(ctx, binp=None, n=None):
-    """returns the number of disagreeing goals; violations and proof failures are registered on ctx"""
-    binp = binp or build_harness(ctx)
-    n = n or (25 if ctx.tier == "quick" else 200)
-    for m in getattr(ctx, "gen_msgs_all", []):      # set by regen(): a refused source construct is a broken obligation here
-        if any(m.rstrip().endswith(f"[generator {g}]") for g in GENERATORS) and not any(m == pf[2] for pf in ctx.proof_failures):
-            ctx.proof_failures.append(("Gen/", "translator", m))
-    ok, fails, _ = coq_build(ctx, FILES, timeout=1500)
-    deps = sorted({d for f in FILES for d in deps_of(f[:-1])})
-    for f, ln, w in static_scan(ctx, [d for d in deps if d.startswith(("Proofs/Compose_", "Gen/Wrappers", "Gen/GridRes", "Gen/PMSimple"))]):
-        ctx.proof_failures.append((f, f"line {ln}", f"forbidden vernacular `{w}`"))
-    if not ok:
-        ctx.proof_failures.extend(fails)
-        ctx.note("wrappers/gridres/pmsimple: a lemma file did not build against the generated definitions; correspondence cases skipped")
-        return 0
-    for f in FILES[:-1]:
-        a = audit_assumptions(ctx, f[:-1])
-        if a["rc"] != 0 or a["unexpected"]:
-            ctx.proof_failures.append((f[:-1], "Print Assumptions", "unexpected axioms: " + ", ".join(a["unexpected"]) if a["unexpected"] else "audit compile failed"))
-    obs = [o for o in run_harness(ctx, binp, ["pms", ctx.seed, n]) if o.get("kind") == "pms"]
-    goals, meta = [], {}
-    sensitive = 0
-    for k, o in enumerate(obs):
+def oracle(ctx, obs):
+    """S5 on the implementation's outputs.  pms: SPDC::delta_k bit-identical with delta_k on the object's fields in the order
+    (omega_s, omega_i, signal, idler, pump, crystal_setup, pp); phasematch_sinc / phasematch_gaussian real and equal to
+    sinc(L dk_z / 2) exp(-((dk_x w_x)^2 + (dk_y w_y)^2)/2), exp(-0.193 (L dk_z / 2)^2) on that dk (1e-9).
+    effchain: SPDC::efficiencies = efficiencies = efficiencies_from_counts(coincidences, signal singles, idler singles), the rates through the
+    methods and through the free functions of counts.rs, bit for bit.  Returns (usable pms observations, number sensitive to a frequency exchange)."""
+    good, sensitive = [], 0
+    for o in obs:
+        kind = o.get("kind")
+        if kind not in ("pms", "effchain"):
+            continue
+        regen_ = {"harness_args": o.get("_args"), "match": {"case": o.get("case")}}
+        det = {"stage": STAGE, "regenerate": regen_, "observation": o}
+        if kind == "effchain":
+            ctx.seen(("effchain", o["L"], o["waist"], o["resolution"], o["divs"]))
+            ctx.count("effchain")
+            if not o.get("ok"):
+                ctx.violation("S5", f"SPDC::efficiencies / counts_* panic: {o.get('panic')}", {"kind": "effchain_panic"}, det)
+            elif o["method"] != o["free"] or o["method"] != o["from_counts"] or o["rates_method"] != o["rates_free"] or o["method"][3:] != o["rates_method"]:
+                ctx.violation("S5", "SPDC::efficiencies(ranges, integrator) is not efficiencies_from_counts(counts_coincidences, counts_singles_signal, "
+                                    "counts_singles_idler) of the same object, ranges and integrator (or a counts_* method differs from its free function): "
+                                    f"method {[f64_of_hex(x) for x in o['method']]}, from counts {[f64_of_hex(x) for x in o['from_counts']]}",
+                              {"kind": "wrapper_efficiencies"}, det)
+            continue
         ctx.seen(("pms", o["omega_s"], o["omega_i"], o["L"]))
         ctx.count("pms:" + ("poled" if o["poled"] else "unpoled"))
+        good.append(o)
         if not o.get("ok"):
-            ctx.violation("S5", f"phasematch_sinc / phasematch_gaussian / SPDC::delta_k panic: {o.get('panic')}", {"kind": "pms_panic"}, o)
-        else:
-            if o["dk"] != o["dk_direct"]:
-                ctx.violation("S5", "SPDC::delta_k(omega_s, omega_i) differs from delta_k(omega_s, omega_i, &signal, &idler, &pump, &crystal_setup, &pp)",
-                              {"kind": "wrapper_delta_k"}, o)
-            if o["dk_swapped"] != o["dk_direct"]:
-                sensitive += 1
-            if any(f64_of_hex(v[1]) != 0.0 for v in (o["pm_sinc"], o["pm_gaussian"])):
-                ctx.violation("S5", "phasematch_sinc / phasematch_gaussian returned a non-real value", {"kind": "pms_not_real"}, o)
-        for g in goals_of(o, k):
+            ctx.violation("S5", f"phasematch_sinc / phasematch_gaussian / SPDC::delta_k panic: {o.get('panic')}", {"kind": "pms_panic"}, det)
+            continue
+        if o["dk"] != o["dk_direct"]:
+            ctx.violation("S5", "SPDC::delta_k(omega_s, omega_i) differs from delta_k(omega_s, omega_i, &signal, &idler, &pump, &crystal_setup, &pp): "
+                                f"{[f64_of_hex(x) for x in o['dk']]} vs {[f64_of_hex(x) for x in o['dk_direct']]}"
+                                + (" (it equals the call with the two frequencies exchanged)" if o["dk"] == o["dk_swapped"] else ""),
+                          {"kind": "wrapper_delta_k"}, det)
+        if o["dk_swapped"] != o["dk_direct"]:
+            sensitive += 1
+        if any(f64_of_hex(v[1]) != 0.0 for v in (o["pm_sinc"], o["pm_gaussian"])):
+            ctx.violation("S5", "phasematch_sinc / phasematch_gaussian returned a non-real value", {"kind": "pms_not_real"}, det)
+        dk = [f64_of_hex(x) for x in o["dk_direct"]]
+        L, wx, wy = f64_of_hex(o["L"]), f64_of_hex(o["wx"]), f64_of_hex(o["wy"])
+        arg = 0.5 * L * dk[2]
+        e_sinc = (1.0 if arg == 0.0 else math.sin(arg) / arg) * math.exp(-0.5 * ((dk[0] * wx) ** 2 + (dk[1] * wy) ** 2))
+        e_gauss = math.exp(-0.193 * arg * arg)
+        for nm, got, exp in (("phasematch_sinc", f64_of_hex(o["pm_sinc"][0]), e_sinc), ("phasematch_gaussian", f64_of_hex(o["pm_gaussian"][0]), e_gauss)):
+            if not abs(got - exp) <= 1e-9:
+                ctx.violation("S5", f"{nm} = {got!r}, but on Delta k = {dk} (L = {L}, pump waist {wx} x {wy}) the formula gives {exp!r}",
+                              {"kind": "pms_value", "quantity": nm}, det)
+    return good, sensitive
+
+
+def run_stage(ctx, binp=None, part="all", n=None):
+    """returns the number of disagreeing goals; violations and broken obligations are registered on ctx"""
+    files, gens, op = PARTS[part]
+    binp = binp or build_harness(ctx)
+    for m in getattr(ctx, "gen_msgs_all", []):      # set by regen(): a refused source construct is a broken obligation here
+        if any(m.rstrip().endswith(f"[generator {g}]") for g in gens) and not any(m == pf[2] for pf in ctx.proof_failures):
+            ctx.proof_failures.append(("Gen/", "translator", m))
+    ok, fails, _ = coq_build(ctx, files, timeout=1500)
+    if not ok:
+        ctx.proof_failures.extend(f for f in fails if f not in ctx.proof_failures)
+        ctx.note(f"wrappers ({part}): a lemma file did not build against the generated definitions; the generated definitions are not compared, "
+                 "the implementation is still checked (S5)")
+    if part == "all":     # stand-alone: nobody else scans / audits these files
+        deps = sorted({d for f in files for d in deps_of(f[:-1])})
+        for f, ln, w in static_scan(ctx, [d for d in deps if d.startswith(("Proofs/Compose_", "Gen/Wrappers", "Gen/GridRes", "Gen/PMSimple"))]):
+            ctx.proof_failures.append((f, f"line {ln}", f"forbidden vernacular `{w}`"))
+        for f in (files[:-1] if ok else []):
+            a = audit_assumptions(ctx, f[:-1])
+            if a["rc"] != 0 or a["unexpected"]:
+                ctx.proof_failures.append((f[:-1], "Print Assumptions", "unexpected axioms: " + ", ".join(a["unexpected"]) if a["unexpected"] else "audit compile failed"))
+    obs = []
+    if op in ("pms", "both"):
+        args = ["pms", ctx.seed, n or (25 if ctx.tier == "quick" else 200)]
+        o1 = run_harness(ctx, binp, args)
+        for o in o1:
+            o["_args"] = [str(a) for a in args]
+        obs += o1
+    if op in ("effchain", "both"):
+        args = ["effchain", ctx.seed, n or (4 if ctx.tier == "quick" else 16)]
+        o2 = run_harness(ctx, binp, args, timeout=1500)
+        for o in o2:
+            o["_args"] = [str(a) for a in args]
+        obs += o2
+    good, sensitive = oracle(ctx, obs)
+    if op in ("pms", "both"):
+        ctx.note(f"SPDC::delta_k forwarding compared on {len(good)} objects, {sensitive} of them sensitive to an exchange of the two frequencies")
+    if not ok or not good:
+        return 0
+    goals, meta = [], {}
+    for o in good:
+        for g in goals_of(o, o["case"]):
             goals.append(g)
             meta[g[0]] = o
-    ctx.cov.setdefault("notes", []).append(f"SPDC::delta_k forwarding compared on {len(obs)} objects, {sensitive} of them sensitive to an exchange of the two frequencies")
     res = run_interval_cases(ctx, "PMS", IMPORTS, goals)
     nbad = 0
-    for cid, good in res.items():
-        if good or cid not in meta:
+    for cid, good_ in res.items():
+        if good_ or cid not in meta:
             continue
         nbad += 1
         ctx.violation("S4", f"generated definition and implementation disagree ({cid.split('_', 1)[1]})",
-                      {"kind": "pms_model_mismatch", "quantity": cid.split("_", 1)[1]}, {"case": cid, "observation": meta[cid]}, found_input=False)
+                      {"kind": "pms_model_mismatch", "quantity": cid.split("_", 1)[1]}, {"stage": STAGE, "case": cid, "observation": meta[cid]}, found_input=False)
     return nbad
+
+
+def try_replay(ctx, binp):
+    """./check <ID> --replay <file> for a record written by this stage; None when the record is not one of this stage's"""
+    from vlib import pmcases
+    try:
+        path = ctx.replay if os.path.isabs(ctx.replay) else os.path.join(VERIF, ctx.replay)
+        rec = json.load(open(path if os.path.exists(path) else ctx.replay))
+    except (OSError, ValueError, TypeError):
+        return None
+    det = rec.get("detail") if isinstance(rec, dict) else None
+    if not (isinstance(det, dict) and det.get("stage") == STAGE):
+        return None
+    return pmcases.replay(ctx, binp, lambda c, obs: oracle(c, obs))
 
 
 def run(ctx):
     """stand-alone entry: ./check wrappers"""
     binp = build_harness(ctx)
+    if getattr(ctx, "replay", None):
+        r = try_replay(ctx, binp)
+        if r is not None:
+            return r
     msgs, spans = regen(ctx, GENERATORS)
-    run_stage(ctx, binp)
+    run_stage(ctx, binp, "all")
     ctx.cov["rule"] = "random SPDC objects (crystal length, elliptic pump waist, non-collinear signal + optimum idler, poled/unpoled), random frequencies and arguments"
     ctx.cov["clauses"] = {"forwarders: callee, argument order, field updates": "pinned by reflexivity against the generated definitions (Compose_wrappers, Compose_wrappers_eff, Compose_gridres)",
                           "generated small functions = implementation": "interval goals (Compose_pmsimple_cases)",
-                          "SPDC::delta_k = delta_k on the object's fields": "bit-exact comparison on every case"}
+                          "SPDC::delta_k = delta_k on the object's fields; SPDC::efficiencies = efficiencies_from_counts of the three rates": "bit-exact comparison on every case"}
     return finish(ctx, assumptions=["every callee of a forwarder is a parameter of its generated definition"])
